@@ -165,6 +165,9 @@ func c07Round(rep *Report, m *MultiFixture, round int, ts []c07Tunnel) {
 	if round == 2 {
 		c07StalledNeighbour(rep, m)
 	}
+	if round%4 == 3 {
+		c07InWithoutID(rep, m, round)
+	}
 	sort.Slice(evs, func(i, j int) bool { return evs[i].seq < evs[j].seq })
 	var sb strings.Builder
 	for _, e := range evs {
@@ -647,5 +650,61 @@ func c07StalledNeighbour(rep *Report, m *MultiFixture) {
 	rep.Count("stalled_neighbour_probes", 1)
 	if failed > 0 && m.GW.Alive() {
 		rep.Violate("C07/setup-waits-for-other-tunnels/stalled-neighbour", fmt.Sprintf("a tunnel whose client had stopped reading ended with unframeable bytes; %d of 8 tunnels of other users opened afterwards did not get through their setup within 10 s", failed), nil)
+	}
+}
+
+// c07InWithoutID: a legacy tunnel waits for its IN channel (OUT accepted); an RDG_IN_DATA request of
+// the same user without (or with an empty / other) connection id arrives: it carries no identifier the
+// waiting tunnel has, so it is not paired with it; the tunnel's own IN request then works as usual.
+func c07InWithoutID(rep *Report, m *MultiFixture, round int) {
+	legacy := false
+	for _, tr := range Transports() {
+		legacy = legacy || tr == "legacy"
+	}
+	if !legacy {
+		return
+	}
+	u := m.Users[round%len(m.Users)]
+	id := NewConnID("noid")
+	hc, err := DialH(m.GW.Addr, DialOpts{})
+	if err != nil {
+		return
+	}
+	defer hc.Close()
+	r, err := hc.Do("RDG_OUT_DATA", GatewayPath, append(Hdr{{"Rdg-Connection-Id", id}, {"Accept", "*/*"}}, u.Headers...), nil, 10*time.Second)
+	if err != nil || r.Status != 200 {
+		rep.Inconclusive("in-without-id: OUT channel not accepted")
+		return
+	}
+	// what the gateway writes behind the OUT accept by itself is read away first
+	for {
+		hc.C.SetReadDeadline(time.Now().Add(200 * time.Millisecond))
+		if n, err := hc.BR.Read(make([]byte, 512)); n == 0 || err != nil {
+			break
+		}
+	}
+	hc.C.SetReadDeadline(time.Time{})
+	for _, other := range []string{"", " ", "-"} {
+		x, xres, _ := OpenLegacy(m.GW.Addr, LegacyOpts{ConnID: other, SkipOut: true, InHeaders: u.Headers})
+		st := 0
+		if xres != nil && xres.In != nil {
+			st = xres.In.Status
+		}
+		if x != nil {
+			x.Send(m.SymHS().Wire)
+			time.Sleep(100 * time.Millisecond)
+			x.Close()
+		}
+		rep.Eval(HashStr("in-without-id", other, st))
+		rep.Count("in_without_id_requests", 1)
+		// anything written to the waiting tunnel's OUT channel was caused by the foreign IN request
+		hc.C.SetReadDeadline(time.Now().Add(150 * time.Millisecond))
+		buf := make([]byte, 256)
+		n, _ := hc.BR.Read(buf)
+		hc.C.SetReadDeadline(time.Time{})
+		if st == 200 || n > 0 {
+			rep.Violate("C07/paired-with-foreign-id", fmt.Sprintf("an RDG_IN_DATA request with connection id %q (status %d) was paired with the waiting tunnel %q of the same user: %d bytes appeared on that tunnel's OUT channel", other, st, id, n), nil)
+			return
+		}
 	}
 }
